@@ -125,3 +125,29 @@ Definition ok_merge (input : list (list caption)) (obs1 obs2 : result (list (lis
       && list_rel (list_rel cap_exact) o1 o2
   | _, _ => false
   end.
+
+(* ---- wave 7 ----------------------------------------------------------------------------------- *)
+(* a caption survives adjust(skew, off): its new start is not negative *)
+Definition survives (sk off : Q) (c : caption) : bool := Qle_bool 0 (c_start c * sk + off).
+
+(* exactly which inputs merge_concurrent_captions rejects: merge() builds Caption(.., new_nodes) for EVERY maximal run
+   (also a run of one), and Caption() refuses an empty node list; new_nodes is empty iff every caption of the run has
+   an empty node list (only possible when a node list was emptied after construction). *)
+Definition run_caps (r : caption * list caption) : list caption := fst r :: snd r.
+Definition no_nodes (c : caption) : bool := match c_nodes c with [] => true | _ => false end.
+Definition run_rejected (r : caption * list caption) : bool := forallb no_nodes (run_caps r).
+Definition merge_accepts (caps : list caption) : bool := forallb (fun r => negb (run_rejected r)) (runs caps).
+
+(* the joined caption of a run in general: leading captions without nodes contribute nothing, not even a line break;
+   from the first caption with nodes on it is join_nodes (a later empty node list still gets its line break) *)
+Fixpoint drop_empty (ls : list (list Z)) : list (list Z) :=
+  match ls with [] :: t => drop_empty t | _ => ls end.
+Definition join_nodes_gen (ls : list (list Z)) : list Z :=
+  match drop_empty ls with [] => [] | f :: o => join_nodes f o end.
+Definition join_run_gen (r : caption * list caption) : caption :=
+  mkCap (c_start (fst r)) (c_end (fst r)) (join_nodes_gen (map c_nodes (run_caps r))).
+Definition spec_merge_gen (caps : list caption) : list caption := map join_run_gen (runs caps).
+
+(* "all their nodes in order": the text of a language = the node values of its captions in order, line breaks left out *)
+Definition lang_text (caps : list caption) : list Z :=
+  filter (fun n => negb (Z.eqb n brk)) (concat (map c_nodes caps)).
